@@ -17,6 +17,7 @@ treats like a broken proof):
   E. Community.on_packet   prefix comparison, msg-id offset, try/except around the handler call.
   F. DiscoveryCommunity.on_old_introduction_request (raw handler): order of the _ez_unpack_auth attempts, the caught
                      exception classes, and that the Peer is built from auth.public_key_bin.
+  F2. ECCrypto.is_valid_signature (try/verify/except -> False), ECCrypto.key_from_public_bin, Peer.__init__ (structural)
   G. VarLen strictness  probed on the live packer (does a truncated varlenH raise?).
   H. /verif/spec/auth_spec.json (frozen, reviewed) -> `Spec.authRequired`.
 """
@@ -95,6 +96,15 @@ def make_node(cls, curve="curve25519"):
 
 def classify(handler) -> dict:
     f = getattr(handler, "__func__", handler)
+    # outer pass-through decorators (e.g. wallet's @synchronized, functools.wraps'ed) are followed through __wrapped__
+    # until a lazy_community wrapper is met; they are recorded in "via" and assumed to forward their arguments unchanged
+    via = []
+    g = f
+    while not g.__code__.co_filename.replace("\\", "/").endswith("/lazy_community.py") and hasattr(g, "__wrapped__"):
+        via.append(getattr(g.__code__, "co_qualname", g.__qualname__))
+        g = g.__wrapped__
+    if g.__code__.co_filename.replace("\\", "/").endswith("/lazy_community.py"):
+        f = g
     code = f.__code__
     fname = code.co_filename.replace("\\", "/")
     qual = getattr(code, "co_qualname", f.__qualname__)
@@ -107,7 +117,7 @@ def classify(handler) -> dict:
             raise TranslatorError(f"wrapper {qual} has no payloads/func closure cells: {sorted(clo)}")
         inner = clo["func"]
         return {"kind": kind, "name": f.__qualname__, "payloads": [p.__name__ for p in clo["payloads"]],
-                "payload_classes": list(clo["payloads"]), "func": inner}
+                "payload_classes": list(clo["payloads"]), "func": inner, "via": via}
     if f.__name__ == "on_deprecated_message":
         return {"kind": "deprecated", "name": f.__qualname__, "payloads": [], "payload_classes": [], "func": f}
     if f.__name__ == "on_cell":
@@ -292,7 +302,8 @@ def _ops_of(stmts, payload_var: str, where: str) -> list[str]:
                 raise TranslatorError(f"{where}: unexpected format list")
         elif isinstance(st, ast.If) and _norm(st.test) == "not signature_valid" and not st.orelse \
                 and isinstance(st.body[-1], ast.Raise) and "PacketDecodingError" in _norm(st.body[-1]) \
-                and all(isinstance(b, (ast.Assign, ast.Raise)) for b in st.body):
+                and all(isinstance(b, (ast.Assign, ast.Expr, ast.Raise)) for b in st.body) \
+                and not any(isinstance(b, ast.Raise) for b in st.body[:-1]):
             ops.append(".assertValid")
         elif s == LOOKUP:
             ops.append(".lookupPeer")
@@ -449,6 +460,38 @@ def translate_disc_raw() -> str:
             "def discRawCatchesDecodeErrors : Bool := true")
 
 
+# ------------------------------------------------------------------------------------------------ F2. crypto wrapper, Peer
+def check_crypto_and_peer() -> str:
+    """The model treats `is_valid_signature` as a total boolean function and `Peer(bytes)` as `key_from_public_bin`."""
+    tree = ast.parse((REPO / "ipv8/keyvault/crypto.py").read_text())
+    fn = _func(tree, "is_valid_signature", "ECCrypto")
+    tries = [n for n in _stmts(fn) if isinstance(n, ast.Try)]
+    if len(tries) != 1 or not isinstance(_stmts(fn)[-1], ast.Try):
+        raise TranslatorError("ECCrypto.is_valid_signature: expected `try: return ec_key.verify(signature, data)` as last statement")
+    tr = tries[0]
+    if not (len(tr.body) == 1 and isinstance(tr.body[0], ast.Return)
+            and "ec_key.verify(signature, data)" in _norm(tr.body[0])):
+        raise TranslatorError(f"ECCrypto.is_valid_signature: verification call changed: {_norm(tr.body[0])[:80]}")
+    for hnd in tr.handlers:
+        if not (len(hnd.body) == 1 and _norm(hnd.body[0]) == "return False"):
+            raise TranslatorError("ECCrypto.is_valid_signature: a failing verification no longer returns False")
+    for st in _stmts(fn)[:-1]:
+        if not isinstance(st, ast.Assert):
+            raise TranslatorError(f"ECCrypto.is_valid_signature: unexpected statement {_norm(st)[:60]}")
+    for name, callee in (("key_from_public_bin", "OpenSSLPK(string)"),):
+        f2 = _func(tree, name, "ECCrypto")
+        if _norm(_stmts(f2)[-1]) != f"return {callee}":
+            raise TranslatorError(f"ECCrypto.{name} changed: {_norm(_stmts(f2)[-1])}")
+    ptree = ast.parse((REPO / "ipv8/peer.py").read_text())
+    init = _func(ptree, "__init__", "Peer")
+    src = _norm(init)
+    if "self.key: Key = default_eccrypto.key_from_public_bin(key)" not in src or "self.public_key = self.key.pub()" not in src:
+        raise TranslatorError("Peer.__init__ no longer derives its key from key_from_public_bin(key) / key.pub()")
+    return ("/-- checked structurally: ECCrypto.is_valid_signature is `try: return ec_key.verify(signature, data)` with\n"
+            "    `return False` on any exception; Peer(bytes) parses with key_from_public_bin -/\n"
+            "def cryptoWrappersAsModelled : Bool := true")
+
+
 # ------------------------------------------------------------------------------------------------ G. varlen strictness
 def probe_varlen_strict() -> bool:
     from ipv8.messaging.serialization import default_serializer
@@ -475,9 +518,10 @@ def _lean_str(s: str) -> str:
     return '"' + s.replace("\\", "\\\\").replace('"', '\\"') + '"'
 
 
-def translate():
+def translate(tables=None):
     """-> (lean source, info dict with the live tables for the harness)"""
-    tables = collect_tables()
+    if tables is None:
+        tables = collect_tables()
     tree = ast.parse((REPO / LAZY).read_text())
     spec = load_spec()
     parts = [
@@ -488,6 +532,7 @@ def translate():
         translate_pack(tree), "",
         translate_on_packet(), "",
         translate_disc_raw(), "",
+        check_crypto_and_peer(), "",
         "/-- probed on the live varlenH packer: does a truncated field raise? -/",
         f"def strictVarlen : Bool := {'true' if probe_varlen_strict() else 'false'}", "",
     ]
@@ -499,6 +544,10 @@ def translate():
                       f"payloads := [{', '.join(_lean_str(p) for p in h['payloads'])}] }}")
         rows.append(f"  {{ name := {_lean_str(t['overlay'])}, pfx := {_lean_bytes(t['prefix'])}, handlers := [\n"
                     + ",\n".join(hs) + "] }")
+    parts.append("/-- the wrapper programs in force -/")
+    parts.append("def progs : Progs :=\n  { signed := lazyWrapper, signedWd := lazyWrapperWd, unsigned := lazyWrapperUnsigned,\n"
+                 "    unsignedWd := lazyWrapperUnsignedWd, ezUnpackAuth := ezUnpackAuth }")
+    parts.append("")
     parts.append("/-- every Community subclass shipped outside ipv8.test, every registered msg id (from the live decode_map) -/")
     parts.append("def overlays : List Overlay := [\n" + ",\n".join(rows) + "]")
     parts.append("")
